@@ -162,6 +162,15 @@ class FnOrder:
                 if c in self.oa.tainted_returns:
                     return f"result of {c.qualname} ({self.oa.tainted_returns[c]})"
         if isinstance(e, ast.Name) and e.id in self.tainted:
+            # flow: when every statement that brings a hash-dependent order into the container is known and
+            # none of them can run before this use, the container is still in a deterministic order here
+            srcs = self.__dict__.get("taint_src", {}).get(e.id)
+            if srcs and all(x is not None for x in srcs) and A.parent(e) is not None:
+                un = self.cfg.node_of(e)
+                if un is not None:
+                    sns = [self.cfg.node_of(x) for x in srcs]
+                    if all(sn is not None and sn is not un and un not in self.cfg.reachable(sn) for sn in sns):
+                        return None
             return self.tainted[e.id]
         if isinstance(e, ast.Subscript) and isinstance(e.slice, ast.Slice):
             return self.set_or_tainted(e.value)
@@ -200,8 +209,12 @@ class FnOrder:
             self._sites(node)
         self._escapes()
 
-    def _taint(self, name: str, why: str) -> None:
+    def _taint(self, name: str, why: str, src: Optional[ast.AST] = None) -> None:
         self.tainted.setdefault(name, why)
+        # where the hash-dependent order comes in (None = unknown place: assume everywhere)
+        lst = self.__dict__.setdefault("taint_src", {}).setdefault(name, [])
+        if not any(x is src for x in lst):
+            lst.append(src)
 
     def _propagate(self, node: ast.AST) -> None:
         if isinstance(node, ast.Assign):
@@ -209,16 +222,16 @@ class FnOrder:
             if r:
                 for t in node.targets:
                     if isinstance(t, ast.Name):
-                        self._taint(t.id, r)
+                        self._taint(t.id, r, node)
                     elif isinstance(t, (ast.Tuple, ast.List)) and isinstance(node.value, (ast.Tuple, ast.List)) and len(t.elts) == len(node.value.elts):
                         for tt, vv in zip(t.elts, node.value.elts):
                             rr = self._tainted_value(vv)
                             if rr and isinstance(tt, ast.Name):
-                                self._taint(tt.id, rr)
+                                self._taint(tt.id, rr, node)
         elif isinstance(node, ast.AnnAssign) and node.value is not None and isinstance(node.target, ast.Name):
             r = self._tainted_value(node.value)
             if r:
-                self._taint(node.target.id, r)
+                self._taint(node.target.id, r, node)
         elif isinstance(node, (ast.For,)):
             r = self.set_or_tainted(node.iter)
             if r:
@@ -235,7 +248,7 @@ class FnOrder:
             if isinstance(recv, ast.Name) and any(m[0] in ("list", "dict") for m in members(strip_none(rt))):
                 r = self.set_or_tainted(node.args[0])
                 if r:
-                    self._taint(recv.id, f"extended with {A.unparse(node.args[0])[:40]} ({r})")
+                    self._taint(recv.id, f"extended with {A.unparse(node.args[0])[:40]} ({r})", node)
 
     def _tainted_value(self, e: ast.AST) -> Optional[str]:
         """reason when the *ordered container* value of e has a hash-dependent order"""
@@ -295,7 +308,7 @@ class FnOrder:
                 if isinstance(recv, ast.Name):
                     rt = self.oa.t(self.fn, recv)
                     if not is_set(rt):
-                        self._taint(recv.id, f"filled inside a loop whose order is hash-dependent ({why})")
+                        self._taint(recv.id, f"filled inside a loop whose order is hash-dependent ({why})", s)
             if isinstance(s, (ast.Assign,)):
                 for t in s.targets:
                     if isinstance(t, ast.Subscript) and isinstance(t.value, ast.Name):
@@ -473,7 +486,14 @@ class FnOrder:
         """node is evaluated only when len(src) == 1 (or <= 1) is known"""
         txt = A.unparse(src)
 
-        def is_single(test: ast.AST, positive: bool) -> bool:
+        def is_single(test: ast.AST, positive: bool, depth: int = 0) -> bool:
+            if isinstance(test, ast.Name) and depth < 2:
+                # a boolean local bound once to a length test (`join = len(xs) >= 2`)
+                defs_ = [s_ for s_ in ast.walk(self.fn.node) if isinstance(s_, ast.Assign) and len(s_.targets) == 1 and isinstance(s_.targets[0], ast.Name) and s_.targets[0].id == test.id]
+                stores_ = [x for x in ast.walk(self.fn.node) if isinstance(x, ast.Name) and x.id == test.id and isinstance(x.ctx, ast.Store)]
+                if len(defs_) == 1 and len(stores_) == 1:
+                    return is_single(defs_[0].value, positive, depth + 1)
+                return False
             if isinstance(test, ast.BoolOp) and isinstance(test.op, ast.And) and positive:
                 return any(is_single(v, True) for v in test.values)
             if isinstance(test, ast.BoolOp) and isinstance(test.op, ast.Or) and not positive:
